@@ -20,8 +20,21 @@ R32 = {"eax": "rax", "ebx": "rbx", "ecx": "rcx", "edx": "rdx", "esi": "rsi", "ed
 R8 = {"al": "rax", "bl": "rbx", "cl": "rcx", "dl": "rdx", "sil": "rsi", "dil": "rdi", "r8b": "r8", "r9b": "r9", "r10b": "r10", "r11b": "r11"}
 
 
+import threading
+_LOCK = threading.Lock()
+_CACHE = {}
+
+
 def disassemble(sfile, wd):
-    o = os.path.join(wd, os.path.basename(sfile) + ".o")
+    with _LOCK:
+        key = (sfile, os.path.getmtime(sfile), os.path.getsize(sfile))
+        if key not in _CACHE:
+            _CACHE[key] = _disassemble(sfile, wd)
+        return _CACHE[key]
+
+
+def _disassemble(sfile, wd):
+    o = os.path.join(wd, os.path.basename(sfile) + ".%d.o" % os.getpid())
     r = subprocess.run(["as", sfile, "-o", o], capture_output=True, text=True)
     if r.returncode != 0:
         raise ExtractionError("assembler failed on %s: %s" % (sfile, r.stderr[-400:]))
